@@ -759,6 +759,25 @@ def runCycles (cfg : Cfg) (p : Program) (fuel : Nat) : Nat → RunState → RunS
     let (st2, os) := runCycles cfg p fuel n st1
     (st2, o :: os)
 
+/-- Input writes applied between cycles (`TestHarness::set_input` → `set_instance_var`): per cycle
+index a list of (variable, value). -/
+abbrev Inputs := Nat → List (String × Val)
+
+def applyInputs (e : Env) (ws : List (String × Val)) : Env :=
+  ws.foldl (fun e (x, v) => insert x v e) e
+
+def RunState.withInputs (st : RunState) (ws : List (String × Val)) : RunState :=
+  { st with store := { st.store with vars := applyInputs st.store.vars ws } }
+
+/-- State after `n` cycles, the inputs `ins k` being written before cycle `k`. -/
+def runFrom (cfg : Cfg) (p : Program) (fuel : Nat) (ins : Inputs) : Nat → RunState → RunState
+  | 0, st => st
+  | n + 1, st => (cycle cfg p fuel ((runFrom cfg p fuel ins n st).withInputs (ins n))).1
+
+/-- What cycle `n` reports. -/
+def reportAt (cfg : Cfg) (p : Program) (fuel : Nat) (ins : Inputs) (n : Nat) (st : RunState) : CycleOut :=
+  (cycle cfg p fuel ((runFrom cfg p fuel ins n st).withInputs (ins n))).2
+
 /-! ## Fault classes of the property statement (C01) -/
 
 inductive FaultClass
